@@ -55,7 +55,7 @@ func DrawProfile(r *rand.Rand) Profile {
 		MaxStmts:    1 + r.IntN(6),
 		MaxDepth:    1 + r.IntN(3),
 		MaxVars:     r.IntN(7),
-		NAccounts:   2 + r.IntN(4),
+		NAccounts:   2 + r.IntN(6),
 		POrigin:     f(0, 0.2, 0.5, 0.8),
 		PBalance:    f(0.3, 0.6, 1),
 		POverdraft:  f(0, 0.2, 0.5),
@@ -85,8 +85,8 @@ func DrawProfile(r *rand.Rand) Profile {
 	}
 }
 
-var AccountPool = []string{"a", "b", "c", "d", "x:y", "users:001"}
-var AssetPool = []string{"USD", "EUR/2", "COIN"}
+var AccountPool = []string{"a", "b", "c", "x:y", "x", "users:001", "d"}
+var AssetPool = []string{"USD", "EUR/2", "COIN", "EUR"}
 var KeyPool = []string{"k", "fee", "owner"}
 
 // VarInfo is what the generator knows about a declared variable.
